@@ -10,6 +10,11 @@ CHECKS = {
   text="Theorem accepts_confines: for every visitor policy satisfying the decidable condition Policy.total, every tree of any depth that the policy accepts contains only whitelisted elements, declared names and direct whitelisted calls, in every child position. The policy table and the interpreter's AST grammar are re-extracted from /repo on every run (single-position probes of the real _SafeVisitor) and `Policy.total Generated.policy` is re-proved by kernel evaluation. The extracted table is validated against the real visitor on spine-enumerated trees to depth 3 (thorough: all of them) and the public compile() API is run on an escape-idiom corpus in every argument/keyword/operand position.",
   note="Trusted: Lean kernel; the behavioural policy extractor (props/c11.py) and the assumption that the visitor treats a node alike at every depth (sampled to depth 3); CPython's ast.parse/compile/eval. Evaluation-time confinement (no builtins consulted) is observed with a spy mapping, not proved.",
   design="§7 C11"),
+ "C12": dict(
+  technique="Lean 4 proof (mutual induction; permutation-invariance of an AC fold; canonicity of a stable sort under an injective key) + decidable side condition on the operator list extracted from the real normaliser + differential run of signature strings and values",
+  text="Theorems norm_sound (the AC normal form has the same value under every assignment, for expressions of any size), sig_eq_implies_val_eq, norm_acEquiv/sig_acEquiv (any re-ordering/re-association of + and * operands at any depth gives the same signature), swap_noncomm_changes and leaf_change_changes, all for every operator list satisfying commOpsOK; the list is re-extracted from the real normalize_expression_sig_v1 on every run and commOpsOK is re-decided. The Lean sig string is compared byte for byte with the real signature and Lean eval with Python's on generated expressions.",
+  note="Trusted: Lean kernel; injectivity of ast.dump (explicit hypothesis hinj); the operator probe in props/c12.py; fragment restricted to fixed-arity abs/min/max and single comparisons; exact integers (results leaving the integers are `none`).",
+  design="§7 C12"),
 }
 
 NOT_APPLICABLE = {}
